@@ -25,10 +25,10 @@ variable {K : Type} [Field K] [LinearOrder K] [IsStrictOrderedRing K]
 @[reducible] def sqrtOf (E : Env K) : HasSqrt K := ⟨E.sqrt⟩
 
 /-- hand vector → generated `Coord3D` -/
-def g3 (a : V3 K) : model3d.Coord3D K := ⟨a.x, a.y, a.z⟩
+@[reducible] def g3 (a : V3 K) : model3d.Coord3D K := ⟨a.x, a.y, a.z⟩
 /-- hand vector → generated `model2d.Coord` -/
-def g2 (a : V2 K) : model2d.Coord K := ⟨a.x, a.y⟩
-def gm3 (m : M3 K) : model3d.Matrix3 K := ⟨m.m0, m.m1, m.m2, m.m3, m.m4, m.m5, m.m6, m.m7, m.m8⟩
+@[reducible] def g2 (a : V2 K) : model2d.Coord K := ⟨a.x, a.y⟩
+@[reducible] def gm3 (m : M3 K) : model3d.Matrix3 K := ⟨m.m0, m.m1, m.m2, m.m3, m.m4, m.m5, m.m6, m.m7, m.m8⟩
 
 @[simp] theorem g3_X (a : V3 K) : (g3 a).X = a.x := rfl
 @[simp] theorem g3_Y (a : V3 K) : (g3 a).Y = a.y := rfl
@@ -105,7 +105,7 @@ theorem feq_eq_isZero_sub (a b : K) : feq a b = isZero (a - b) := by
 theorem feq_zero (a : K) : feq a 0 = isZero a := by
   rw [feq_eq_isZero_sub, sub_zero]
 
-def gseg (s : V3 K × V3 K) : model3d.Segment K := ⟨g3 s.1, g3 s.2⟩
+@[reducible] def gseg (s : V3 K × V3 K) : model3d.Segment K := ⟨g3 s.1, g3 s.2⟩
 
 theorem newSegment (p1 p2 : V3 K) : model3d.NewSegment (g3 p1) (g3 p2) = gseg (newSegment3 p1 p2) := by
   unfold model3d.NewSegment newSegment3
@@ -157,6 +157,14 @@ theorem rect_contains (lo hi c : V3 K) :
   unfold model3d.Rect_Contains rectContains3
   simp only [coord3_min, coord3_max, g3_X, g3_Y, g3_Z, V3.vmin, V3.vmax, feq_mn, feq_mx, Bool.and_assoc]
 
+/-- `safeNormal` (normalise, project out the invalid direction, fall back when what is left is below the
+literal `1e-5`): the model's `safeNormal3` with `E.eps5` that literal. -/
+theorem safeNormal3_eq (he : E.eps5 = (1.0e-5 : K)) (d f i : V3 K) :
+    (letI := sqrtOf E; model3d.safeNormal (g3 d) (g3 f) (g3 i)) = g3 (safeNormal3 E d f i) := by
+  unfold model3d.safeNormal safeNormal3
+  simp only [coord3_norm, feq_zero, coord3_scale, coord3_projectOut, decide_eq_true_eq, he]
+  split_ifs <;> rfl
+
 /-! ## the `model2d` twins -/
 
 theorem coord2_add (a b : V2 K) : model2d.Coord_Add (g2 a) (g2 b) = g2 (a.add b) := rfl
@@ -183,6 +191,12 @@ theorem coord2_mid (hh : E.half = (0.5 : K)) (a b : V2 K) :
     model2d.Coord_Mid (g2 a) (g2 b) = g2 (a.mid E b) := by
   unfold model2d.Coord_Mid V2.mid
   rw [coord2_add, coord2_scale, hh]
+
+theorem safeNormal2_eq (he : E.eps5 = (1.0e-5 : K)) (d f i : V2 K) :
+    (letI := sqrtOf E; model2d.safeNormal (g2 d) (g2 f) (g2 i)) = g2 (safeNormal2 E d f i) := by
+  unfold model2d.safeNormal safeNormal2
+  simp only [coord2_norm, feq_zero, coord2_scale, coord2_projectOut, decide_eq_true_eq, he]
+  split_ifs <;> rfl
 
 theorem segment2_closest (s0 s1 c : V2 K) :
     (letI := sqrtOf E; model2d.Segment_Closest ⟨g2 s0, g2 s1⟩ (g2 c)) = g2 (segClosest2 E s0 s1 c) := by
